@@ -179,6 +179,9 @@ def rerun_scenario(lines, devs, work, nodes):
     return len(bad) > 0, open(out).read().splitlines()
 
 
+SYS_PROPS = ("C01", "C02", "C07")
+
+
 def check(prop, tier, seed, replay):
     t0 = time.time()
     work = scratch(prop)
@@ -192,7 +195,11 @@ def check(prop, tier, seed, replay):
         devs = sorted(k["key"] for k in opens)
         if replay:
             rp = json.load(open(replay))
-            again, lines = rerun_scenario(rp["scenario"], devs, work, nodes)
+            if rp.get("scenario") == "sys":
+                import check_sys
+                again = check_sys.replay(prop, rp, work)
+            else:
+                again, lines = rerun_scenario(rp["scenario"], devs, work, nodes)
             if again:
                 log("VIOLATION property=%s replay=%s" % (prop, replay))
                 return 1
@@ -255,6 +262,15 @@ def check(prop, tier, seed, replay):
                 break
         for kl in known_lines:
             log(kl)
+        # 6. system level: free concurrent workloads validated event by event against the composition Gorums.tla
+        syscov = None
+        if prop in SYS_PROPS:
+            import check_sys
+            sysdesign = check_sys.design_level(work, tier)
+            log("design level: Gorums.tla (%s): %d distinct states, invariants hold" % (sysdesign["config"], sysdesign["states"]))
+            syscov, sysbad = check_sys.phase(prop, tier, seed, work, reported)
+            syscov["design_level"] = sysdesign
+            accepted += syscov["accepted"]
         violations = len(reported)
         samples = [json.loads(s[0]) for s in scen[:2]]
         if scen:
@@ -274,6 +290,8 @@ def check(prop, tier, seed, replay):
             "deviations_enabled": devs, "known_findings_reported": known_lines,
             "quiescent_events": st["quiescent_events"],
         }
+        if syscov:
+            cov["system_level_free_workloads"] = syscov
         write_evidence(prop, tier, seed, "fault_enumeration" if prop == "C07" else "model_checking", cov,
                        time.time() - t0, violations,
                        ["gRPC, HTTP/2, the Go runtime and protobuf are environment",
